@@ -30,7 +30,7 @@ type chanRef struct {
 
 func (c *Ctx) classifyChan(v ssa.Value) chanRef {
 	if f := loadedField(v); f != nil {
-		return chanRef{v, chField, f, f.Name()}
+		return chanRef{v, chField, f, fieldName(f)}
 	}
 	switch x := v.(type) {
 	case *ssa.Call:
